@@ -114,6 +114,12 @@ func (in *Interp) assume(c *term.Term) {
 func (in *Interp) assert(label string, cond *term.Term) {
 	in.nobl++
 	ob := in.check(label, cond)
+	if ob.Status == "closed" {
+		// obligations whose two sides are the same term are counted, not listed
+		// (millions on view and clone harnesses; the list would dominate the results)
+		in.res.Closed++
+		return
+	}
 	in.res.Obligations = append(in.res.Obligations, ob)
 	if ob.Tier == "fp-path-infeasible" {
 		panic(pathEnd{"infeasible", "path condition unsatisfiable in the precise theory"})
